@@ -655,6 +655,32 @@ def parse_generate_hash_key(c_toks, pp_toks):
                 main_key_env=parse_env_list(c_toks, 'c.rs'), pp_key_env=parse_env_list(pp_toks, 'preprocessor_cache.rs'))
 
 
+
+# ---------------------------------------------------------------- the environment of the two compiler commands
+
+def parse_command_env(gcc_toks, comp_toks):
+    """preprocess_cmd (gcc.rs) and SingleCompileCommand::execute (compiler.rs): is the child's environment the client's and
+    nothing else, i.e. `.env_clear()` before the one `.envs(<client variables>)`?  -> (preprocess, compile) booleans"""
+    def cleared(body, what):
+        t = text(body)
+        n_envs = t.count('. envs (')
+        n_env1 = t.count('. env (')
+        if n_envs != 1 or n_env1 != 0:
+            raise Unrecognised('%s: the command environment is built differently (%d envs, %d env calls)' % (what, n_envs, n_env1))
+        i_clear = t.find('. env_clear ( )')
+        return 0 <= i_clear < t.find('. envs (')
+    pre = cleared(fn_body(gcc_toks, 'preprocess_cmd'), 'preprocess_cmd')
+    i = find_seq(comp_toks, ['impl', 'CompileCommandImpl', 'for', 'SingleCompileCommand'])
+    if i < 0:
+        raise Unrecognised('impl CompileCommandImpl for SingleCompileCommand not found')
+    j = i
+    while comp_toks[j][1] != '{':
+        j += 1
+    impl = comp_toks[j + 1:match_close(comp_toks, j)]
+    comp = cleared(fn_body(impl, 'execute', ['async']), 'SingleCompileCommand::execute')
+    return pre, comp
+
+
 # ---------------------------------------------------------------- reading the hand-written Coq side
 
 def coq_ctor_list(argtypes_v, name):
@@ -687,7 +713,7 @@ def coq_row(r):
     return 'ITake %s V%s %s %s' % (coq_bytes(s), vtype, coq_disp(d, delim), c)
 
 
-def read_all(repo):
+def read_all(repo, strict=True):
     def toks_of(rel):
         return lex(open(os.path.join(repo, rel), encoding='utf-8').read())
     gcc = toks_of('src/compiler/gcc.rs')
@@ -720,7 +746,12 @@ def read_all(repo):
     if want not in text(gcc) or 'expansions_left : MAX_INCLUDE_FILE_EXPANSIONS ,' not in text(gcc):
         raise Unrecognised('ExpandIncludeFile::next: the expansion bound changed')
     spec.update(parse_parse_arguments(gcc, variants))
-    spec.update(parse_generate_hash_key(toks_of('src/compiler/c.rs'), toks_of('src/compiler/preprocessor_cache.rs')))
+    try:
+        spec.update(parse_generate_hash_key(toks_of('src/compiler/c.rs'), toks_of('src/compiler/preprocessor_cache.rs')))
+        spec['env_cleared'] = parse_command_env(gcc, comp)
+    except Unrecognised:
+        if strict:
+            raise          # the generators only need the tables: they go on with strict=False when the key part is unreadable
     if spec['arch_flag'] is None:
         raise Unrecognised('const ARCH_FLAG not found')
     return spec
@@ -809,6 +840,9 @@ def emit(spec, argtypes_v):
     A('Definition pp_key_env : list bytes := [ %s ].' % '; '.join(coq_bytes(n) for n in spec['pp_key_env']))
     A('Definition env_prefilter : option (list bytes) := %s.' % ('None' if spec['env_prefilter'] is None else 'Some main_key_env'))
     A('Definition key_order : list bytes := [ %s ].' % '; '.join(coq_bytes(n) for n in spec['key_order']))
+    A('(* `.env_clear()` precedes `.envs(client variables)` in preprocess_cmd / SingleCompileCommand::execute *)')
+    A('Definition preprocess_env_cleared : bool := %s.' % ('true' if spec['env_cleared'][0] else 'false'))
+    A('Definition compile_env_cleared : bool := %s.' % ('true' if spec['env_cleared'][1] else 'false'))
     A('')
     return '\n'.join(L)
 
